@@ -37,7 +37,7 @@ EXHAUSTIVE = {'quick': 'step numbers 1..1 000 000, each decoded by the real pars
 QUICK_SEEDS = list(range(16))
 FLOORS = {'quick': {'numbers_decoded': 1000000, 'number_chunks': 20, 'table_cases': 1500, 'targets_with_2plus_vars': 200,
                     'targets_with_2plus_vars_f_not_name_order': 100, 'valid_proof_cases': 100, 'cases_with_Z': 300,
-                    'label_list_len_0': 20, 'twin_theorem_cases': 100, 'label_list_len_30plus': 50, 'wild_whitespace_cases': 300, 'hash_seeds_per_case_min16': 1500,
+                    'label_list_len_0': 20, 'twin_theorem_cases': 100, 'targets_with_element_or_set_variable': 100, 'label_list_len_30plus': 50, 'wild_whitespace_cases': 300, 'hash_seeds_per_case_min16': 1500,
                     **{f'seed_runs:{s}': 1500 for s in QUICK_SEEDS}}}
 FLOORS['thorough'] = dict(FLOORS['quick'], numbers_decoded=3000000, number_chunks=60, table_cases=12000,
                           **{f'seed_runs:{s}': 12000 for s in range(32)})
@@ -304,6 +304,8 @@ def shard(ctx):
         ctx.count('table_cases')
         if c.get('twin_of'):
             ctx.count('twin_theorem_cases')
+        if c.get('non_pattern_mandatory'):
+            ctx.count('targets_with_element_or_set_variable')
         if len(seeds) >= 16:
             ctx.count('hash_seeds_per_case_min16')
         if c['kind'] == 'valid_proof':
